@@ -136,7 +136,25 @@ def gen_parent_loopish(rng, level):
     return out
 
 
+def gen_close_probe(rng):
+    """nested monitors + GeneratorExit from above while the parent waits in a sub-call: the child answers
+    the close with an oob to the outer monitor, the parent survives the RuntimeError and carries on"""
+    d1, d2, t = rng.randint(10, 99), rng.randint(10, 99), rng.randint(100, 199)
+    after = rng.choice([[("S", t)], [("O", 0, rng.randint(10, 99))], [("S", t), ("O", 0, rng.randint(10, 99))],
+                        [("L", 3), ("T", 1)]])
+    parent = [("TRY", [("U", 1, rng.choice([("aw", 0), ("st",)]), "u")],
+               [(rng.choice(["RT", "EXC", "BASE"]), after + [("L", 1)])], [])]
+    kid = [("TRY", [("O", 0, d1)] + ([("S", rng.randint(100, 199))] if rng.random() < 0.3 else []),
+            [(rng.choice(["GE", "BASE"]), [("O", rng.choice([0, 0, 1]), d2)])], [])]
+    script = [("call", 0, rng.choice(["u", "b"]), rng.choice([("aw", 0), ("st",)])),
+              ("call", 0, rng.choice(["u", "b"]), rng.choice([("at", "GE"), ("ac",), ("at", "E1")])),
+              ("send", rng.choice(VALS)), ("call", 0, "u", ("aw", 2))]
+    return {"progs": [parent, kid], "script": script, "reent": False}
+
+
 def gen_case(rng):
+    if rng.random() < 0.01:
+        return gen_close_probe(rng)
     nlevels = rng.choice([1, 1, 1, 2, 2, 3])
     progs = []
     for lv in range(nlevels):
@@ -509,6 +527,7 @@ def oracle(olog, tags):
     ge = False             # a GeneratorExit may be in flight in the current top-level action
     awaiting_reply = {}    # monitor -> d  (an oob on m was delivered; the next accepted call on m answers it)
     top_close = False      # the current top-level action is close() of the suspended call
+    swallowed = set()      # monitors whose accepted oob value was swallowed by a close() (RuntimeError)
     n = len(olog)
     for i, ev in enumerate(olog):
         nxt = olog[i + 1] if i + 1 < n else None
@@ -516,6 +535,8 @@ def oracle(olog, tags):
         k = ev[0]
         if k == "act":
             top_close = ev[1] == "close"
+            if ev[1] == "call":
+                pass
             ge = ev[1] == "close" or (ev[1] == "throw" and ev[2] == "GE") or (ev[1] == "call" and is_ge_op(ev[2]))
         elif k == "drv":
             _, m, op, st, cs = ev
@@ -547,6 +568,12 @@ def oracle(olog, tags):
                     return "oob-reply", i, exp, nxt
         elif k == "oobcall":
             _, m, d, st = ev
+            if st == -1:
+                # left over from an oob value swallowed by a close() further down: the monitor IS driving
+                # this coroutine, so the oob must be served like any other
+                if nxt is not None and nxt[:3] == ("oobexc", m, "RuntimeError"):
+                    return "stale-oob-after-close", i, "oob(%s) accepted: the monitor is active" % d, nxt
+                st = 1
             if st != 1:
                 tags.add("oob-refused")
                 if nxt is None or nxt[:3] != ("oobexc", m, "RuntimeError"):
@@ -572,16 +599,19 @@ def oracle(olog, tags):
                     awaiting_reply[m] = d
             elif ge and nxt is not None and nxt[0] == "exc" and nxt[2] == "RuntimeError":
                 tags.add("oob-while-closing")
-                awaiting_reply[m] = d
+                if nxt[1] != m:
+                    swallowed.add(m)      # swallowed by the relay of another monitor further down: no reply owed
+                else:
+                    awaiting_reply[m] = d
             else:
                 return "oob-delivery", i, exp, nxt
         elif k == "got":
             _, m, d, st = ev
-            if prv is None or prv[:3] != ("oobcall", m, d) or prv[3] != 1:
+            if prv is None or prv[:3] != ("oobcall", m, d) or prv[3] not in (1, -1):
                 op = active.get(m)
                 # OOBData raised by a body itself (abuse) is not judged
                 if not (prv is not None and prv[0] == "bodyexc" and str(prv[2]).startswith("OOBData")):
-                    return "oob-spurious", i, ("oobcall", m, d, 1), prv
+                    return ("stale-oob-after-close" if m in swallowed else "oob-spurious"), i, ("oobcall", m, d, 1), prv
             if st != 0:
                 return "idle-after-call", i, 0, st
         elif k == "pend":
@@ -672,6 +702,20 @@ def judge(case):
     except Exception as e:  # noqa: BLE001
         raise core.InfraError(f"oracle crashed: {e!r} on {json.dumps(case)}")
     situation_tags(case, lines, outs, real.olog, tags)
+    # The model describes the code as it is.  From the action in which an accepted oob value is swallowed
+    # by the close() of a relay further down (the known stale-state finding) the op-by-op comparison stops:
+    # the oracle above judges that territory, and a repaired monitor legitimately differs from the model.
+    real.cut = None
+    nact = -1
+    ol_ = real.olog
+    for i_, ev_ in enumerate(ol_):
+        if ev_[0] == "act":
+            nact += 1
+        elif (ev_[0] == "oobcall" and ev_[3] == 1 and i_ + 1 < len(ol_) and ol_[i_ + 1][0] == "exc"
+              and ol_[i_ + 1][1] != ev_[1] and ol_[i_ + 1][2] == "RuntimeError"):
+            real.cut = max(nact, 0)
+            tags.add("oob-swallowed-by-inner-close")
+            break
     if bad is not None:
         bad = bad + (real.olog[max(0, bad[1] - 3): bad[1] + 2],)
     elif real.athrow_bad is not None:
@@ -804,6 +848,8 @@ def explore(ctx, cases, label=""):
                           small, expected=b2[2], observed={"got": b2[3], "events": b2[4]},
                           theorem="Asynkit.C07." + THEOREM_OF.get(b2[0].split("-oracle")[0], "oob_exactly_once_in_order"))
         pre = lean_lines(case, [])
+        if real.cut is not None:
+            lines, outs = lines[:real.cut], outs[:real.cut]
         spans.append((len(all_lines) + len(pre), len(lines)))
         all_lines.extend(pre + lines)
         reals.append((case, lines, outs))
@@ -833,6 +879,7 @@ THEOREM_OF = {
     "real-yield-passthrough": "oob_exactly_once_in_order", "oob-refused": "oob_refused_when_inactive",
     "start-result": "start_consistent", "aclose-finished": "aclose_consistent",
     "mode-task": "oob_exactly_once_in_order", "mode-sync": "oob_exactly_once_in_order",
+    "stale-oob-after-close": "nested_monitors (Safe is necessary: stale_oob_after_close)",
     "athrow-exception-identity": "oob_reply", "athrow-not-delivered": "oob_reply", "athrow-traceback": "oob_reply",
 }
 
